@@ -3,7 +3,7 @@
 use anyhow::{Context, Result};
 use clap::{Subcommand, ValueEnum};
 use std::fs;
-use std::path::Path;
+use std::path::{Path, PathBuf};
 use wow_mpq::{
     Archive, ArchiveBuilder, FormatVersion, PatchChain, RebuildOptions,
     compare_archives as mpq_compare_archives,
@@ -670,6 +670,29 @@ async fn record_listfile_to_db(
     Ok(0)
 }
 
+/// Output path for an archive entry, or `None` when the entry name would lead outside
+/// `output_dir` (parent-directory, root or prefix components, or no file name at all).
+fn extraction_target(output_dir: &str, file: &str, preserve_paths: bool) -> Option<PathBuf> {
+    let system_path = mpq_path_to_system(file);
+    if preserve_paths {
+        let mut relative = PathBuf::new();
+        for component in Path::new(&system_path).components() {
+            match component {
+                std::path::Component::Normal(part) => relative.push(part),
+                std::path::Component::CurDir => {}
+                _ => return None,
+            }
+        }
+        if relative.as_os_str().is_empty() {
+            return None;
+        }
+        Some(Path::new(output_dir).join(relative))
+    } else {
+        let filename = Path::new(&system_path).file_name()?;
+        Some(Path::new(output_dir).join(filename))
+    }
+}
+
 struct ExtractOptions {
     archive_path: String,
     output_dir: String,
@@ -822,13 +845,12 @@ fn extract_files_with_options(options: ExtractOptions) -> Result<()> {
 
             match data_result {
                 Ok(data) => {
-                    let output_path = if preserve_paths {
-                        let system_path = mpq_path_to_system(&file);
-                        Path::new(&output_dir).join(system_path)
-                    } else {
-                        let system_path = mpq_path_to_system(&file);
-                        let filename = Path::new(&system_path).file_name().unwrap_or_default();
-                        Path::new(&output_dir).join(filename)
+                    let Some(output_path) = extraction_target(&output_dir, &file, preserve_paths)
+                    else {
+                        log::warn!("Refusing to extract {file}: name leads outside the output directory");
+                        error_count += 1;
+                        pb.inc(1);
+                        continue;
                     };
 
                     if let Some(parent) = output_path.parent() {
@@ -900,15 +922,12 @@ fn extract_files_with_options(options: ExtractOptions) -> Result<()> {
 
             match chain.read_file(file) {
                 Ok(data) => {
-                    let output_path = if preserve_paths {
-                        // Convert MPQ path separators to system path separators
-                        let system_path = mpq_path_to_system(file);
-                        Path::new(&output_dir).join(system_path)
-                    } else {
-                        // Convert MPQ path to system path, then extract just the filename
-                        let system_path = mpq_path_to_system(file);
-                        let filename = Path::new(&system_path).file_name().unwrap_or_default();
-                        Path::new(&output_dir).join(filename)
+                    let Some(output_path) = extraction_target(&output_dir, file, preserve_paths)
+                    else {
+                        log::warn!("Refusing to extract {file}: name leads outside the output directory");
+                        error_count += 1;
+                        pb.inc(1);
+                        continue;
                     };
 
                     if let Some(parent) = output_path.parent() {
